@@ -54,16 +54,18 @@ class _modules_copyable:
 
     def __new__(cls, *args, **kwargs):
         """
-        Make this class a singleton (there exists at most one instance).
+        Make this class a singleton (there exists at most one instance). The
+        state is initialised here, exactly once: `__init__` would run again
+        every time the singleton is looked up, resetting the reference count
+        (and replacing the lock) while copies are still in progress.
         """
         if not hasattr(cls, "__instance__"):
-            cls.__instance__ = super().__new__(cls, *args, **kwargs)
+            instance = super().__new__(cls, *args, **kwargs)
+            instance.lock = RLock()
+            instance.refcount = 0
+            instance.patched_table = False
+            cls.__instance__ = instance
         return cls.__instance__
-
-    def __init__(self):
-        self.lock = RLock()
-        self.refcount = 0
-        self.patched_table = False
 
     def __enter__(self):
         with self.lock:
@@ -79,6 +81,9 @@ class _modules_copyable:
             if self.patched_table and self.refcount == 0:
                 del copyreg.dispatch_table[ModuleType]
                 self.patched_table = False
+
+
+_modules_copyable()  # create the singleton at import time, before any threads can race for it
 
 
 def mutate_attr(
